@@ -640,7 +640,8 @@ class DebianCopyright(object):
                 para1.license.name = ''
                 # keep every value of the folded paragraph: its fields may be
                 # named "unknown", "unknown_1", "unknown_foo", ...
-                para1.license.text = '\n'.join(para2.to_dict().values())
+                para1.license.text = '\n'.join(
+                    v for v in para2.to_dict().values() if v)
 
                 # The updated CopyrightLicenseParagraph paragraph lines extend
                 # from its original start line to the end line of the
